@@ -47,12 +47,63 @@ func posClass(li, n int) string {
 	return "inner"
 }
 
+
+// elementOrderClause: see the comment inside; d is the decision for the case as drawn.
+func elementOrderClause(c *h.Ctx, cs Case, d chain.Decision) {
+	// element order: the same chain with the elements of the argument list "files" in another order (reversed, rotated)
+	// gets the same verdict - a statement over a list says something about its elements, not about their places
+	for _, dv := range cs.Dev {
+		if dv != "list-deny-rule" {
+			continue
+		}
+		for variant := 0; variant < 2; variant++ {
+			c2 := cs.Case
+			reorder := func(kvs []val.KV) []val.KV {
+				out := append([]val.KV{}, kvs...)
+				for i, e := range out {
+					if e.K == "files" && e.V.Kind() == "list" && len(e.V.L) > 1 {
+						l := append([]val.V{}, e.V.L...)
+						if variant == 0 {
+							for a, b := 0, len(l)-1; a < b; a, b = a+1, b-1 {
+								l[a], l[b] = l[b], l[a]
+							}
+						} else {
+							l = append(l[1:], l[0])
+						}
+						out[i].V = val.List(l...)
+					}
+				}
+				return out
+			}
+			c2.Inv.Args = reorder(cs.Inv.Args)
+			if cs.Inv.Hook != nil {
+				hk := *cs.Inv.Hook
+				hk.Args = reorder(cs.Inv.Hook.Args)
+				c2.Inv.Hook = &hk
+			}
+			b2, err := chain.Build(c2)
+			if err != nil {
+				continue
+			}
+			if d2 := chain.Decide(b2, c2.Inv.Hook); d2.Allowed != d.Allowed && !d2.Panicked && !d.Panicked {
+				c.Fail("C03/list-order/verdict-depends-on-element-order", "the same chain and arguments with the elements of the list argument in another order (variant %d): allowed=%v, in the drawn order allowed=%v\ncase: %+v", variant, d2.Allowed, d.Allowed, cs)
+			}
+		}
+		c.P.Class("list-order-variants")
+	}
+}
+
 func run(c *h.Ctx, cs Case) {
 	r := chain.Eval(cs.Case)
 	if r.PolicyUnspec {
 		c.P.Unspecified()
 		for _, o := range r.UnspecOps {
 			c.P.Class("unspec:" + o)
+		}
+		// what the statement says is not settled by the reference - that it says the same whatever the order of the
+		// list's elements is
+		if b, err := chain.Build(cs.Case); err == nil {
+			elementOrderClause(c, cs, chain.Decide(b, cs.Inv.Hook))
 		}
 		return
 	}
@@ -101,6 +152,7 @@ func run(c *h.Ctx, cs Case) {
 	for _, fs := range r.FalseStmts {
 		c.P.Class("false@" + posClass(fs[0], n))
 	}
+	elementOrderClause(c, cs, d)
 	// hook clause: decision(args A, hook -> B) == decision(args B, no hook)
 	if cs.Inv.Hook != nil && !cs.Inv.Hook.Err {
 		twin := cs.Case
@@ -323,6 +375,49 @@ func draw(t *rapid.T) Case {
 		li := rapid.IntRange(0, n-1).Draw(t, "vt_link")
 		cs.Links[li].Pol = append(append(pol.Policy{}, cs.Links[li].Pol...), st)
 		cs.Dev = append(cs.Dev, "value-twin")
+	}
+	if rapid.IntRange(0, 6).Draw(t, "listorder") == 3 {
+		// a deny-list over the elements of an argument list - not(any(.files, == .owner? "root")), all(.files, ...) -
+		// whose inner statement reads an OPTIONAL field that some elements lack; the elements in a drawn order (the
+		// invoker chooses it): what the statement says about the list does not depend on where the offending element
+		// stands among elements that lack the field. The reference evaluator decides what it says.
+		mk := func(owner string, i int) val.V {
+			if owner == "" {
+				return val.Map(val.E("name", val.Str(fmt.Sprintf("f%d", i))))
+			}
+			return val.Map(val.E("owner", val.Str(owner)), val.E("name", val.Str(fmt.Sprintf("f%d", i))))
+		}
+		nEl := rapid.IntRange(1, 5).Draw(t, "lo_n")
+		var els []val.V
+		for i := 0; i < nEl; i++ {
+			els = append(els, mk(rapid.SampledFrom([]string{"", "", "root", "alice"}).Draw(t, "lo_owner"), i))
+		}
+		var keep []val.KV
+		for _, e := range cs.Inv.Args {
+			if e.K != "files" {
+				keep = append(keep, e)
+			}
+		}
+		keep = append(keep, val.KV{K: "files", V: val.List(els...)})
+		cs.Inv.Args = keep
+		if cs.Inv.Hook != nil {
+			cs.Inv.Hook.Args = append([]val.KV{}, keep...)
+		}
+		root := val.Str("root")
+		inner := pol.Stmt{Op: "==", Sel: sel.Sel{{Kind: "field", Name: "owner", Opt: rapid.IntRange(0, 3).Draw(t, "lo_opt") > 0}}, Lit: &root}
+		files := sel.Sel{{Kind: "field", Name: "files"}}
+		var st pol.Stmt
+		switch rapid.IntRange(0, 3).Draw(t, "lo_form") {
+		case 0, 1:
+			st = pol.Stmt{Op: "not", Sub: []pol.Stmt{{Op: "any", Sel: files, Sub: []pol.Stmt{inner}}}}
+		case 2:
+			st = pol.Stmt{Op: "all", Sel: files, Sub: []pol.Stmt{{Op: "not", Sub: []pol.Stmt{inner}}}}
+		default:
+			st = pol.Stmt{Op: "any", Sel: files, Sub: []pol.Stmt{inner}}
+		}
+		li := rapid.IntRange(0, n-1).Draw(t, "lo_link")
+		cs.Links[li].Pol = append(append(pol.Policy{}, cs.Links[li].Pol...), st)
+		cs.Dev = append(cs.Dev, "list-deny-rule")
 	}
 	eff := cs.Inv.Args
 	if cs.Inv.Hook != nil {
